@@ -327,6 +327,47 @@ pub fn exec_run_many(files: &[SrcFile], main: &str, opts: &RunOpts, selectors: &
     outs
 }
 
+/// Like exec_run_many, with per-run overrides. `optimizer_off` overrides need their own compilation,
+/// so variants are grouped by that flag.
+pub fn exec_run_var(files: &[SrcFile], main: &str, opts: &RunOpts, variants: &[Variant]) -> Vec<RunOut> {
+    let mut programs: [Option<Result<abra_core::verif::CompiledProgram, FrontVerdict>>; 2] = [None, None];
+    let mut outs = Vec::with_capacity(variants.len());
+    for v in variants {
+        let off = v.optimizer_off.unwrap_or(opts.optimizer_off);
+        let slot = off as usize;
+        if programs[slot].is_none() {
+            let mut o = opts.clone();
+            o.optimizer_off = off;
+            programs[slot] = Some(compile_for_run(files, main, &o));
+        }
+        match programs[slot].as_ref().unwrap() {
+            Err(fv) => {
+                let mut out = empty_out();
+                out.compile = fv.clone();
+                outs.push(out);
+            }
+            Ok(program) => {
+                let mut o = opts.clone();
+                o.optimizer_off = off;
+                if !v.budgets.is_empty() {
+                    o.budgets = v.budgets.clone();
+                }
+                if let Some(g) = &v.gc {
+                    o.gc = g.clone();
+                }
+                if let Some(q) = v.quarantine {
+                    o.quarantine = q;
+                }
+                o.host.retain(|h| h.name != "verif_sel");
+                o.host.push(HostDecl { name: "verif_sel".into(), args: vec![], ret: ScalarTy::Int, returns: vec![Scalar::Int(v.sel)] });
+                apply_hooks(&o);
+                outs.push(run_program(program.clone(), &o));
+            }
+        }
+    }
+    outs
+}
+
 pub fn run_program(program: abra_core::verif::CompiledProgram, opts: &RunOpts) -> RunOut {
     let mut out = empty_out();
     out.compile = FrontVerdict::Ok;
@@ -575,6 +616,7 @@ pub fn handle(req: Req) -> Resp {
     match req {
         Req::Ping => Resp::Pong,
         Req::Run { files, main, opts } => Resp::Run(exec_run(&files, &main, &opts)),
+        Req::RunVar { files, main, opts, variants } => Resp::RunMany(exec_run_var(&files, &main, &opts, &variants)),
         Req::RunMany { files, main, opts, selectors } => Resp::RunMany(exec_run_many(&files, &main, &opts, &selectors)),
         Req::Front { files, main, check, compile } => {
             abra_core::verif::reset();
